@@ -12,17 +12,19 @@ import (
 
 // SpecEnv evaluates spec expressions to SMT terms.
 type SpecEnv struct {
-	ex      *Exec
-	st      *State
-	vars    map[string]*Val
-	cur     HeapView
-	old     HeapView
-	pkg     *types.Package
-	nextOld Term
-	depth   int
-	iter    *MapIter
-	entry   HeapView // when set: what entry(e) refers to (default: the entry of the function under contract)
-	pol     int      // +1: the expression stands where it has to be proved, -1: under one negation, 0: unknown / assumed
+	ex       *Exec
+	st       *State
+	vars     map[string]*Val
+	cur      HeapView
+	old      HeapView
+	pkg      *types.Package
+	nextOld  Term
+	depth    int
+	iter     *MapIter
+	calleeFn *ssa.Function   // set while a callee's contract is applied at a call site: $-names are the callee's
+	dollar   map[string]*Val // the (existential) values standing for them
+	entry    HeapView        // when set: what entry(e) refers to (default: the entry of the function under contract)
+	pol      int             // +1: the expression stands where it has to be proved, -1: under one negation, 0: unknown / assumed
 }
 
 func (env *SpecEnv) withPol(p int) *SpecEnv {
@@ -247,6 +249,32 @@ func (env *SpecEnv) dollarValue(name string) *Val {
 		env.fail("%s used outside a function body", name)
 	}
 	fr := st.frame
+	if env.calleeFn != nil {
+		// at a call site the callee's internal values are unknown: one arbitrary value per name
+		if v, ok := env.dollar[name]; ok {
+			return v
+		}
+		counts := map[string]int{}
+		for _, b := range env.calleeFn.Blocks {
+			for _, in := range b.Instrs {
+				kind := dollarKind(in)
+				if kind == "" {
+					continue
+				}
+				n := fmt.Sprintf("$%s%d", kind, counts[kind])
+				counts[kind]++
+				if n == name {
+					v := env.ex.freshVal(st, "callee"+strings.ReplaceAll(name, "$", "."), in.(ssa.Value).Type())
+					if v.Tup != nil {
+						v = v.Tup[0]
+					}
+					env.dollar[name] = v
+					return v
+				}
+			}
+		}
+		env.fail("no value named %s in %s (the function changed?)", name, env.calleeFn.String())
+	}
 	if strings.HasPrefix(name, "$phi_") {
 		// $phi_<var>: the value of the first phi with that source name that is computed on this path
 		want := strings.TrimPrefix(name, "$phi_")
@@ -264,21 +292,7 @@ func (env *SpecEnv) dollarValue(name string) *Val {
 	counts := map[string]int{}
 	for _, b := range fr.fn.Blocks {
 		for _, in := range b.Instrs {
-			kind := ""
-			switch x := in.(type) {
-			case *ssa.MakeMap:
-				kind = "makemap"
-			case *ssa.MakeSlice:
-				kind = "makeslice"
-			case *ssa.Lookup:
-				kind = "lookup"
-			case *ssa.Call:
-				if cal := x.Common().StaticCallee(); cal != nil {
-					kind = "call_" + cal.Name() + "_"
-				} else if x.Common().IsInvoke() {
-					kind = "call_" + x.Common().Method.Name() + "_"
-				}
-			}
+			kind := dollarKind(in)
 			if kind == "" {
 				continue
 			}
@@ -287,7 +301,10 @@ func (env *SpecEnv) dollarValue(name string) *Val {
 			if n == name {
 				v, ok := fr.vals[in.(ssa.Value)]
 				if !ok {
-					env.fail("%s is not computed on this path", name)
+					// The instruction was not executed on this path (an earlier return): the name stands for an
+					// arbitrary value of its type. A clause that is guarded by the condition under which the
+					// value exists is unaffected; an unguarded one cannot be proved from an unconstrained value.
+					v = env.ex.freshVal(st, "notcomputed", in.(ssa.Value).Type())
 				}
 				if v.Tup != nil {
 					return v.Tup[0]
@@ -1068,6 +1085,25 @@ func enclosingTrigger(body string, lo, hi int) string {
 				}
 				return expr
 			}
+		}
+	}
+	return ""
+}
+
+// dollarKind: the $-name stem of an instruction (see dollarValue), "" if it has none.
+func dollarKind(in ssa.Instruction) string {
+	switch x := in.(type) {
+	case *ssa.MakeMap:
+		return "makemap"
+	case *ssa.MakeSlice:
+		return "makeslice"
+	case *ssa.Lookup:
+		return "lookup"
+	case *ssa.Call:
+		if cal := x.Common().StaticCallee(); cal != nil {
+			return "call_" + cal.Name() + "_"
+		} else if x.Common().IsInvoke() {
+			return "call_" + x.Common().Method.Name() + "_"
 		}
 	}
 	return ""
